@@ -6,6 +6,7 @@ package yamux
 
 import (
 	"context"
+	"errors"
 	"net"
 	"sync"
 	"testing"
@@ -216,6 +217,40 @@ func TestVerifC02Yamux(t *testing.T) {
 			pa.Close()
 			pb.Close()
 		}
+		// a writer that bounds its writes: one Write larger than the send window (256 KiB) against
+		// a reader that does not read until the writer has SEEN the write-deadline timeout (so the
+		// outcome does not depend on timing); the writer extends the deadline and goes on from
+		// the byte count Write reported (io.Writer contract), the reader then drains.  Everything
+		// written must arrive exactly once, in order.
+		if i%3 == 2 {
+			x, err := ca.OpenStream(context.Background())
+			if err != nil {
+				t.Fatal(err)
+			}
+			if _, err := x.Write([]byte{0xEE}); err != nil {
+				t.Fatal(err)
+			}
+			y, err := cb.AcceptStream()
+			if err != nil {
+				t.Fatal(err)
+			}
+			one := make([]byte, 1)
+			if _, err := y.Read(one); err != nil || one[0] != 0xEE {
+				t.Fatalf("marker: %v %v", err, one)
+			}
+			y.SetReadDeadline(time.Now().Add(60 * time.Second))
+			wl := []int{262144 + 1 + r.Intn(300000)}
+			if r.Chance(1, 2) {
+				wl = append(wl, r.Intn(5000))
+			}
+			bl := []int{1 + r.Intn(100000)}
+			seen := make(chan struct{})
+			rw := &c02ResumeWriter{s: x, seen: seen, cover: func() { out.Cover("yamux.write_deadline_expired_midway_writer_resumes") }}
+			line := verifh.StreamCase(5, 202, r.Intn(1<<19), wl, bl, rw, x.CloseWrite, &c02GateReader{r: y, gate: seen}, 50*time.Second)
+			out.Case(line)
+			x.Close()
+			y.Close()
+		}
 		ca.Close()
 		cb.Close()
 	}
@@ -239,4 +274,52 @@ func (l *c02LateWriter) Write(b []byte) (int, error) {
 		time.Sleep(l.d)
 	}
 	return l.w.Write(b)
+}
+
+// c02ResumeWriter: its first Write runs under a short write deadline; on a timeout it lets
+// the reader start (seen), extends the deadline and writes on from the count reported so far.
+type c02ResumeWriter struct {
+	s        network.MuxedStream
+	seen     chan struct{}
+	once     sync.Once
+	cover    func()
+	armed    bool
+	timeouts int
+}
+
+func (w *c02ResumeWriter) Write(b []byte) (int, error) {
+	if !w.armed {
+		w.armed = true
+		w.s.SetWriteDeadline(time.Now().Add(100 * time.Millisecond))
+	}
+	defer w.once.Do(func() { close(w.seen) })
+	off := 0
+	for {
+		n, err := w.s.Write(b[off:])
+		off += n
+		if err == nil {
+			return off, nil
+		}
+		var te interface{ Timeout() bool }
+		if !errors.As(err, &te) || !te.Timeout() || w.timeouts >= 4 || off > len(b) {
+			return off, err
+		}
+		w.timeouts++
+		w.s.SetWriteDeadline(time.Now().Add(60 * time.Second))
+		w.once.Do(func() { close(w.seen); w.cover() })
+	}
+}
+
+// c02GateReader does not read before gate is closed (bounded)
+type c02GateReader struct {
+	r    interface{ Read([]byte) (int, error) }
+	gate <-chan struct{}
+}
+
+func (g *c02GateReader) Read(b []byte) (int, error) {
+	select {
+	case <-g.gate:
+	case <-time.After(30 * time.Second):
+	}
+	return g.r.Read(b)
 }
